@@ -488,6 +488,24 @@ def r7_second_keys(ctx, prog):
         r.undecided('SoftHSM', 'second keys', 'no key taken from a mechanism parameter was found (CKM_CONCATENATE_BASE_AND_KEY gone?)', file='', line=0)
 
 
+def r4b_always_authenticate_everywhere(ctx, prog):
+    """"A private-key operation on a key with CKA_ALWAYS_AUTHENTICATE true cannot produce output before a successful context-specific login": every entry point that lets a
+    private key compute something - C_SignInit, C_DecryptInit, but also C_UnwrapKey (an RSA decryption whose result becomes a key) and C_DeriveKey (a DH / ECDH agreement) - looks
+    at the attribute of the key it is about to use."""
+    r = ctx.rule('C07.R4b', 'every entry point that performs a private-key operation consults CKA_ALWAYS_AUTHENTICATE of the key', floor=4, engine='E5 must-read')
+    aa = macro(prog, 'CKA_ALWAYS_AUTHENTICATE')
+    for q in ('SoftHSM::AsymSignInit', 'SoftHSM::AsymDecryptInit', 'SoftHSM::C_UnwrapKey', 'SoftHSM::C_DeriveKey'):
+        f = prog.fn(q)
+        ctx.analysed(f)
+        reads = [c for c in calls(f['body'], short='getBooleanValue') if c.get('args') and tables.const_eval(c['args'][0]) == aa]
+        site = 'CKA_ALWAYS_AUTHENTICATE of the key'
+        if reads:
+            r.ok(q, site, 'read at line %s' % reads[0]['l'], file=f['file'], line=reads[0]['l'])
+        else:
+            r.violation(q, site, '%s performs a private-key operation (RSA decryption of the wrapped key / key agreement) without looking at CKA_ALWAYS_AUTHENTICATE: a key that C_Sign and C_Decrypt refuse to use without a context-specific login produces its result here' % short(q),
+                        file=f['file'], line=f['line'])
+
+
 def run(ctx):
     prog = ctx.prog('ossl-file')
     mx = matrix(ctx, prog)
@@ -498,6 +516,7 @@ def run(ctx):
     r5_list_effects(ctx, prog)
     r6_reauthenticate(ctx, prog)
     r7_second_keys(ctx, prog)
+    r4b_always_authenticate_everywhere(ctx, prog)
 
 
 MUTANTS = [
